@@ -648,7 +648,7 @@ impl Prop for C04 {
             rule: "(1) chunking: 10 byte streams (incl. maximum-size messages, embedded frame markers, 3 x capacity totals, serial framing, long garbage) x capacities {low+4096, low+4097, 512 KiB} (low = DLT_MIN_PARSER_LOOKAHEAD_SIZE, what the production call sites pass) x read-size schedules of a scripted source (constant k for 12-16 values incl. 1 and 65550..65556, every single deviation 'call #i returns 1 / half / asked-1 bytes' for i < 12, every pair of deviations, 3 cyclic patterns): DltMessageIterator over LowMarkBufReader must yield the same messages and counters as over the whole slice; every whole-message suffix parses to the tail. (2) reader alone: explicit-state BFS by re-execution over 19 operations (fill_buf, 4 consumes, 4 reads, 10 seeks with state-relative targets) from the initial state, per (capacity, low mark, data length, source schedule) configuration, states deduplicated on (pos, abs_pos, cap, empty_last_read, source call phase, model cursor, hash of the buffered bytes), plus an undeduplicated depth-4/5 tree. Oracle = byte vector + one cursor: bytes handed out / buffered equal the source's at the cursor, fill_buf returns >= min(low mark, remaining) and is empty only at the true end, seeks to targets inside the currently buffered range succeed, successful seeks re-deliver the source's bytes.".into(),
             assumptions: vec!["fingerprint argument: the reader's control flow depends only on its numeric fields and the source state; buffered content is hashed in; the undeduplicated tree cross-checks small depths".into(),
                 "consume(n) is only called with n <= buffered bytes (BufRead contract)".into()],
-            budget_s: (45, 1200),
+            budget_s: (120, 1200),
             workers: 0,
             required_landmarks: vec!["chunk_case", "suffix_case", "compaction(abs_pos>0)", "empty_last_read", "short_reads", "backward_seek_ok"],
         }
